@@ -37,23 +37,37 @@ inductive AE where
   | neg (a : AE)
 deriving Repr, Inhabited
 
-/-- a literal seed -/
+/-- a literal seed; `nint n` / `ndbl m e` are the negative literals `-n` / `-m·10^e` (Python parses
+them as unary minus on a constant; the translator emits `int acc ((-(3)));`) -/
 inductive Seed where
   | int (n : Nat)
   | dbl (m : Nat) (e : Int)
+  | nint (n : Nat)
+  | ndbl (m : Nat) (e : Int)
 deriving Repr, Inhabited
 
 def Seed.ty : Seed → Ty
   | .int _ => .int
   | .dbl _ _ => .double
+  | .nint _ => .int
+  | .ndbl _ _ => .double
 
 def Seed.cexpr : Seed → CExpr
   | .int n => .int n
   | .dbl m e => .dbl (decText m e) m e
+  | .nint n => .un "-" (.int n)
+  | .ndbl m e => .un "-" (.dbl (decText m e) m e)
 
 def Seed.query : Seed → Query
   | .int n => .int n
   | .dbl m e => .dbl m e
+  | .nint n => .neg (.int n)
+  | .ndbl m e => .neg (.dbl m e)
+
+/-- a non-negative int literal (the seeds of the widened case of the theorems) -/
+def Seed.isNatLit : Seed → Bool
+  | .int _ => true
+  | _ => false
 
 structure Agg where
   c : Chain
